@@ -280,7 +280,7 @@ func checkSecurityMethod(c *Ctx, r *Report, ver, bsm, secComp string) {
 		case *ast.AssignStmt:
 			if len(x.Lhs) == 1 && len(x.Rhs) == 1 {
 				if ix, ok := x.Lhs[0].(*ast.IndexExpr); ok {
-					if _, isMap := info.TypeOf(ix.X).Underlying().(*types.Map); isMap {
+					if mt, isMap := info.TypeOf(ix.X).Underlying().(*types.Map); isMap && !isSetMap(mt) {
 						checkKV(x.Pos(), ix.Index, x.Rhs[0])
 					}
 				}
@@ -302,7 +302,8 @@ func checkSecurityMethod(c *Ctx, r *Report, ver, bsm, secComp string) {
 	isInsert := func(ins ssa.Instruction) bool {
 		switch x := ins.(type) {
 		case *ssa.MapUpdate:
-			return true
+			mt, _ := x.Map.Type().Underlying().(*types.Map)
+			return mt == nil || !isSetMap(mt) // (a set of names built for the membership test is not the requirement)
 		case ssa.CallInstruction:
 			cn := calleeName(x)
 			return strings.Contains(cn, "OrderedMap[") && strings.HasSuffix(cn, ").Set")
@@ -310,8 +311,15 @@ func checkSecurityMethod(c *Ctx, r *Report, ver, bsm, secComp string) {
 		return false
 	}
 	ruleGuarded(c, r, "C04.b", bsm, "insertion guarded by IsSecurityNameInSecuritySchemes", isInsert,
-		func(a *sliceAtoms, _ ssa.Value) bool {
-			return a.Calls["generator/swagen/swagtool.IsSecurityNameInSecuritySchemes"] && a.hasFieldNamed("SchemaName")
+		func(a *sliceAtoms, cnd ssa.Value) bool {
+			// the membership test: the helper, or a comma-ok lookup in a set keyed by the declared SecurityName values
+			viaSet := false
+			if ex, ok := stripTrivial(cnd).(*ssa.Extract); ok && ex.Index == 1 {
+				if lk, ok := ex.Tuple.(*ssa.Lookup); ok && lk.CommaOk {
+					viaSet = a.hasFieldNamed("SecurityName") || w.setKeyedByField(lk.X, "SecurityName")
+				}
+			}
+			return (a.Calls["generator/swagen/swagtool.IsSecurityNameInSecuritySchemes"] || viaSet) && a.hasFieldNamed("SchemaName")
 		}, true, 1, ver+": a scheme name enters the requirement only after IsSecurityNameInSecuritySchemes(config schemes, name) answered true")
 	ruleEach(c, r, "C04.b", bsm,
 		func(fi *FuncInfo) func(ast.Expr) bool {
@@ -323,8 +331,8 @@ func checkSecurityMethod(c *Ctx, r *Report, ver, bsm, secComp string) {
 				case *ast.AssignStmt:
 					if len(x.Lhs) == 1 {
 						if ix, ok := x.Lhs[0].(*ast.IndexExpr); ok {
-							_, isMap := fi.Pkg.TypesInfo.TypeOf(ix.X).Underlying().(*types.Map)
-							return isMap
+							mt, isMap := fi.Pkg.TypesInfo.TypeOf(ix.X).Underlying().(*types.Map)
+							return isMap && !isSetMap(mt)
 						}
 					}
 				case *ast.CallExpr:
@@ -699,7 +707,11 @@ func swagtoolSorters(w *World) []string {
 func checkSchemeMembership(c *Ctx, r *Report, clause string) {
 	w := c.W
 	// IsSecurityNameInSecuritySchemes is a membership test on SecurityName
-	if fi := need(c, r, clause, "generator/swagen/swagtool.IsSecurityNameInSecuritySchemes"); fi != nil {
+	if len(w.callersOf(nameIs("generator/swagen/swagtool.IsSecurityNameInSecuritySchemes"))) == 0 {
+		// nobody asks the helper any more: membership is then decided where the insertion guard rule
+		// (C04.b, buildSecurityMethod) accepts it - a comma-ok lookup in a set keyed by SecurityName
+		r.add(clause, "guardedby", "generator/swagen/swagtool.IsSecurityNameInSecuritySchemes:membership", "the helper is unused; membership is decided by the set lookup the insertion guard rule checks", nil, []string{"gleece:0"}, "")
+	} else if fi := need(c, r, clause, "generator/swagen/swagtool.IsSecurityNameInSecuritySchemes"); fi != nil {
 		viol := ""
 		var sites []string
 		nTrue := 0
@@ -833,4 +845,58 @@ func dominatingFactsOfValue(v ssa.Value, b *ssa.BasicBlock) []edgeFact {
 		return dominatingFacts(ins.Block())
 	}
 	return dominatingFacts(b)
+}
+
+// isSetMap: a map used as a set (values carry nothing).
+func isSetMap(mt *types.Map) bool {
+	switch e := mt.Elem().Underlying().(type) {
+	case *types.Struct:
+		return e.NumFields() == 0
+	case *types.Basic:
+		return e.Kind() == types.Bool
+	}
+	return false
+}
+
+// setKeyedByField: m is a map built (in place, or by a split-off helper it is the result of)
+// with keys that are the given field of the elements it was built from, and by nothing else.
+func (w *World) setKeyedByField(m ssa.Value, field string) bool {
+	for _, ov := range w.originValues(m) {
+		ov = stripTrivial(ov)
+		var mk ssa.Value
+		switch x := ov.(type) {
+		case *ssa.MakeMap:
+			mk = x
+		case *ssa.Call:
+			callee := x.Common().StaticCallee()
+			if callee == nil || !w.isNewFn(callee) {
+				return false
+			}
+			for _, ex := range exitsOf(callee) {
+				if ex.Ret != nil && len(ex.Ret.Results) == 1 {
+					for _, rv := range w.originValues(ex.Ret.Results[0]) {
+						if mm, ok := stripTrivial(rv).(*ssa.MakeMap); ok {
+							mk = mm
+						}
+					}
+				}
+			}
+		}
+		if mk == nil || mk.Referrers() == nil {
+			return false
+		}
+		n := 0
+		for _, rf := range *mk.Referrers() {
+			if mu, ok := rf.(*ssa.MapUpdate); ok && mu.Map == mk {
+				n++
+				if !sliceOf(mu.Key).hasFieldNamed(field) {
+					return false
+				}
+			}
+		}
+		if n == 0 {
+			return false
+		}
+	}
+	return true
 }
